@@ -17,3 +17,10 @@ package http
 //@   ensures[C16.c4] sent && do_err == nil && do_status != 200 && do_status != 404 ==> err != nil && err != os.ErrNotExist && out == nil
 //@   ensures[C16.c4] (!sent || do_err != nil) ==> err != nil && err != os.ErrNotExist && out == nil
 //@   ensures[C16.c5] err == nil ==> sent && do_err == nil && do_status == 200
+
+// The update client reads what the witness answered: no answer makes it panic (C19).
+//@ func (Witness).Update
+//@   returns (out, err)
+//@   requires w.url != nil && w.client != nil
+//@   modifies heap, req_method, req_url, req_body, n_do, do_method, do_url, do_body, do_err, do_status, do_final_method, do_resp_body, rd_buf, rdr_bytes
+//@   ensures[C19.s] true
